@@ -87,7 +87,7 @@ func (p *recPersister) GetHeaderDirectChildren(ctx context.Context, name string,
 	return nil, nil
 }
 
-func (p *recPersister) DeleteHeader(ctx context.Context, name string, lastknownrecord, lastknownblock int64) (*config.Header, error) {
+func (p *recPersister) DeleteHeader(ctx context.Context, name string, linkname string, lastknownrecord, lastknownblock int64) (*config.Header, error) {
 	p.events = append(p.events, "delete:"+name)
 	p.checkPos("delete_lastknown", name, lastknownrecord, lastknownblock)
 	return &config.Header{Name: name}, nil
